@@ -634,8 +634,9 @@ func (b *EndpointBuilder) filterIstioEndpoint(ep *model.IstioEndpoint) bool {
 	draining := ep.HealthStatus == model.Draining ||
 		features.DrainingLabel != "" && ep.Labels[features.DrainingLabel] != ""
 	if draining {
-		persistentSession := b.service.Attributes.Labels[features.PersistentSessionLabel] != ""
-		if !persistentSession {
+		// cookie or header based persistent sessions: the same test the registry uses to mark an
+		// endpoint as draining and the cluster builder uses to let Envoy keep DRAINING hosts
+		if !b.service.SupportsDrainingEndpoints() {
 			return false
 		}
 	}
